@@ -112,12 +112,18 @@ def run_shard(params, rec):
     for i in range(params["n"]):
         with_loop = rng.random() < 0.45
         mode = None if with_loop else rng.choice([None, None, None, "straddle", "straddle", "split", "tiny"])
+        selfloop = (not with_loop) and spec.family.startswith("x86") and rng.random() < 0.25
         prog = jitlib.make_prog(spec, rng, pool, rng.randrange(3, 15), with_loop=with_loop, mode=mode,
+                                selfloop=selfloop,
                                 fault_bias=0.0 if with_loop else rng.choice([0.0, 0.03, 0.1, 0.3, 0.5]))
         rec.count("mode:%s" % mode)
         bps = []
         if rng.random() < 0.5 and prog.instrs:
             bps = sorted(set(rng.choice(prog.instrs)[0] for _ in range(rng.choice([1, 2]))))
+        if selfloop and rng.random() < 0.7:
+            # a breakpoint on the self-branching instruction: one hit per iteration
+            bps = sorted(set(bps + [o for o, ln, t, nm in prog.instrs if nm == "SELFLOOP"]))
+            rec.count("breakpoint_on_self_branching_instruction")
         # half of the breakpoint callbacks change, from outside the engine, a register (or flag) that
         # the instruction under the breakpoint is about to assign: what an emulated library function does
         bp_writes = {}
